@@ -346,7 +346,13 @@ def check_parser_input(ctx: Ctx) -> None:
             defs = flow.reaching(n2, v.id) if isinstance(v, ast.Name) else []
             ctx.ob("R-LAYOUT-Y5", f"{fm.qual} :: the stripped text is what is preprocessed", any(d.node in norm_nodes for d in defs) and len(defs) == 1,
                    "nothing may re-add layout between the strip and the parser", where(fm, c2))
-    # frontmatter split dominates dedent / strip / parse
+
+
+def check_frontmatter_order(ctx: Ctx) -> None:
+    """C07: the frontmatter is split off before anything else touches the text."""
+    repo, prog = ctx.repo, ctx.prog
+    fm = repo.func(FM)
+    flow = prog.flow(fm)
     sf = [(n, c) for n, c in flow.all_calls() if call_name(prog, fm, c).endswith(":split_frontmatter")]
     ctx.require("R-FRONTMATTER", "split_frontmatter call in fill_markdown", len(sf), 1)
     if sf:
@@ -358,6 +364,11 @@ def check_parser_input(ctx: Ctx) -> None:
         ctx.ob("R-FRONTMATTER", f"{fm.qual} :: frontmatter is split off before any text processing", not bad,
                "dedent / strip / tag preprocessing / parsing must all come after split_frontmatter (they would alter the frontmatter block)",
                where(fm, bad[0] if bad else sn))
+        # and it is split from the text as given
+        c = sf[0][1]
+        org = origins(prog, fm, c.args[0], sn) if c.args else frozenset()
+        ctx.ob("R-FRONTMATTER", f"{fm.qual} :: split_frontmatter receives the input text itself", org == frozenset({("param", fm.params[0])}),
+               "the text handed to split_frontmatter must be the unmodified input; it is " + ", ".join(fmt_origin(o) for o in org), where(fm, c))
 
 
 def check_frontmatter_flow(ctx: Ctx) -> None:
@@ -461,6 +472,36 @@ def check_split_frontmatter(ctx: Ctx) -> None:
     for op, why in bad:
         ctx.ob("R-FRONTMATTER-verbatim", f"{sf.qual} :: {op.text}", False,
                f"the frontmatter (and the body) must come out character for character apart from CRLF -> LF: {why}", where(sf, op.node))
+    # the frontmatter piece is the join of ONE contiguous slice of the split lines (delimiter lines included, untouched):
+    # rebuilding it from constants (`["---", *inner, "---"]`) would normalise the delimiter lines
+    flow0 = prog.flow(sf)
+    for r in flow0.cfg.returns():
+        v = r.ast.value
+        if not (isinstance(v, ast.Tuple) and len(v.elts) == 2):
+            continue
+        first = v.elts[0]
+        if isinstance(first, ast.Constant) or (isinstance(first, ast.Name) and first.id == p):
+            continue
+        e, nd = first, r
+        if isinstance(e, ast.Name):
+            defs = flow0.reaching(nd, e.id)
+            if len(defs) == 1 and defs[0].value is not None:
+                e, nd = defs[0].value, defs[0].node
+        # "\n".join(<slice of lines>) + "\n"
+        core = e.left if isinstance(e, ast.BinOp) and isinstance(e.op, ast.Add) and isinstance(e.right, ast.Constant) and e.right.value == "\n" else e
+        ok = isinstance(core, ast.Subscript) and isinstance(core.slice, ast.Slice) and isinstance(core.value, ast.Name) and core.value.id == p
+        if isinstance(core, ast.Call) and isinstance(core.func, ast.Attribute) and core.func.attr == "join" and core.args:
+            a = core.args[0]
+            if isinstance(a, ast.Name):
+                ds = flow0.reaching(nd, a.id)
+                if len(ds) == 1 and ds[0].value is not None:
+                    a = ds[0].value
+            ok = isinstance(a, ast.Subscript) and isinstance(a.slice, ast.Slice) and a.slice.step is None and isinstance(a.value, ast.Name) and any(
+                d.kind == "assign" and isinstance(d.value, ast.Call) and isinstance(d.value.func, ast.Attribute) and d.value.func.attr in ("split", "splitlines")
+                for d in flow0.reaching(nd, a.value.id))
+        ctx.ob("R-FRONTMATTER-verbatim", f"{sf.qual} :: frontmatter = join of one slice of the input's lines", ok,
+               "the frontmatter block (its `---` lines included) must be cut out of the input's own lines, not rebuilt from constants or "
+               f"several pieces: `{norm(e)[:70]}`", where(sf, nd))
     # the no-frontmatter path returns the input itself
     flow = prog.flow(sf)
     ident = 0
